@@ -293,6 +293,9 @@ def validate_property_class(val, name, class_, parent):
         val = class_(**val)
     elif val is None:
         val = class_()
+    elif isinstance(val, class_):
+        # take over the values, not the instance: it may belong to another object
+        val = deepcopy(val)
     if not isinstance(val, class_):
         raise ValueError(
             f"the `{name}` property of `{type(parent).__name__}` must be an instance \n"
